@@ -238,6 +238,40 @@ def default_alias_probe(ctx, root):
     b.cleanup_module()
 
 
+def rewrite_probe(ctx, root):
+    """each task sees the values of the config FILE as it is when the config is constructed: a config or context file that is rewritten
+    between two constructions in one process — same path, same length, same modification time (a timestamp-preserving copy, a coarse
+    clock) — is read again, nothing of the earlier version survives in the process"""
+    import json
+    import os
+    from taskchain import Config
+    spec = {'classes': {'K0': {'name': 'a', 'group': '', 'params': [{'name': 'x'}, {'name': 'y', 'default': 0}], 'inputs': [], 'kind': 'json', 'run_args': []}},
+            'files': {'p.json': {'tasks': ['K0'], 'x': 1}, 'ctx.json': {'y': 1}}, 'main': 'p.json'}
+    b = pl.materialize(spec, root / 'rewrite', modname=builder.gen.fresh_modname())
+    b.module()
+    pfile, cfile = b.path('p.json'), b.path('ctx.json')
+    ptext = pfile.read_text()
+    for k in range(ctx.n(6, 40)):
+        case = {'probe': 'config file rewritten between two constructions', 'round': k, 'preserve_mtime': k % 3 != 2, 'which': ['config', 'context'][k % 2]}
+        ctx.case(case); ctx.count('rewrite-probe')
+        target, key = (pfile, 'x') if k % 2 == 0 else (cfile, 'y')
+        seen = []
+        for val in (k % 7 + 1, (k + 3) % 7 + 1):
+            st = target.stat() if target.exists() else None
+            d = json.loads(target.read_text())
+            d[key] = val
+            target.write_text(json.dumps(d))
+            if st is not None and case['preserve_mtime']:
+                os.utime(target, ns=(st.st_atime_ns, st.st_mtime_ns))
+            chain = Config(root / 'rwd', str(pfile), context=str(cfile)).chain()
+            seen.append((val, _plain(chain['a'].params[key])))
+        bad = [s_ for s_ in seen if s_[0] != s_[1]]
+        if bad:
+            ctx.fail('a task sees the value of an earlier version of its config file', case, {'written_then_seen': seen})
+    pfile.write_text(ptext)
+    b.cleanup_module()
+
+
 def _plain(x):
     """strings (incl. substituted ones) by their text"""
     if isinstance(x, dict):
@@ -263,6 +297,7 @@ def run(ctx):
         check_params(ctx, spec, root, f'c{i}', mo)
     aliasing_probe(ctx, root)
     default_alias_probe(ctx, root)
+    rewrite_probe(ctx, root)
 
 
 def search(ctx, divergences):
